@@ -554,4 +554,27 @@ theorem fast_equiv_example :
         | _ => false) = true := by
   decide
 
+/-! ## 4. which mapper attribute the trusted path reads -/
+
+/-- a declared `_deserialization_mapper` wins over the `_serialization_mapper` (as in the regular
+    path): the table of the trusted path is built from it -/
+theorem mapper_deser_first (m s : TMapper) (b b' : Option TMapper) :
+    ({ ser := some s, deser := some m, baseSer := b, baseDeser := b' } : MapperDecl).resolved = m := rfl
+
+/-- … an empty one included: `{}` declared for reading switches the renaming off -/
+theorem mapper_deser_empty_wins (s : TMapper) :
+    mapKey ({ ser := some s, deser := some (.rename []) } : MapperDecl).resolved "a_b" = "a_b" := rfl
+
+/-- without a deserialization mapper the serialization mapper is read -/
+theorem mapper_ser_fallback (s : TMapper) :
+    ({ ser := some s } : MapperDecl).resolved = s := rfl
+
+/-- an inherited mapper is read when the class declares none; the class's own shadows it -/
+theorem mapper_inherited (b : TMapper) :
+    ({ baseSer := some b } : MapperDecl).resolved = b
+    ∧ ∀ s, ({ ser := some s, baseSer := some b } : MapperDecl).resolved = s := ⟨rfl, fun _ => rfl⟩
+
+example : mapKey (mapEnvOf [("A", { ser := some .lower, deser := some (.rename [("a_b", "k")]) })] "A") "a_b" = "k" := by
+  decide
+
 end Typedpy.C10
